@@ -869,6 +869,148 @@ func (p *pipeGen) refreshCase() {
 	p.op("pipe dump")
 }
 
+// prefetchCase: an entry inside its prefetch window is hit, the real worker code
+// refreshes it through an upstream that records what it was ASKED; both CD
+// partitions are populated so that an answer obtained for the other one shows.
+func (p *pipeGen) prefetchCase() {
+	r := p.r
+	p.ecs = !r.Chance(1, 4)
+	p.op("pipe new %s %s,%d", map[bool]string{true: "on", false: "off"}[p.ecs], vlib.Pick(r, []string{"32,128,32,128", "24,56,24,56", "24,56,24,48"}), vlib.Pick(r, []int{50, 10, 90}))
+	g := genGid(r)
+	g.scope = netip.Prefix{}
+	twin := g
+	twin.cd = !g.cd
+	idg, idt := p.nextID(), p.nextID()
+	alias := "-"
+	if r.Chance(1, 6) && g.qtype != 16 {
+		alias = nameTok(genLabels(r))
+		if alias == "w:00" {
+			alias = "-"
+		}
+	}
+	p.op("pipe set own %s %d %s", g.tok(), idg, alias)
+	p.op("pipe set own %s %d -", twin.tok(), idt)
+	var scoped gid
+	ids := 0
+	if r.Chance(1, 3) {
+		scoped = g
+		scoped.scope = genPrefix(r, r.Chance(1, 3))
+		ids = p.nextID()
+		p.op("pipe set own %s %d -", scoped.tok(), ids)
+		p.op("pipe age %d", ids) // scoped entries are never refreshed
+	}
+	p.op("pipe age %d", idg)
+	if r.Chance(1, 3) {
+		p.op("pipe age %d", idt)
+	}
+	hit := func(x gid, client netip.Prefix) {
+		c := x
+		if r.Bool() {
+			c.ls = flipCase(r, x.ls)
+		}
+		q := fmt.Sprintf("%s,%d,%d,%s", nameTok(c.ls), c.qtype, c.class, vlib.B(c.cd))
+		route := vlib.Pick(r, []string{"msg", "wire", "msg"})
+		p.op("pipe get %s %s %s", route, q, fmtScope(client))
+	}
+	hit(g, netip.Prefix{})
+	if r.Bool() {
+		hit(g, clientFor(r, netip.Prefix{})) // second hit while the claim is held
+	}
+	if r.Chance(1, 2) {
+		hit(twin, netip.Prefix{})
+	}
+	if ids != 0 {
+		hit(scoped, scoped.scope)
+	}
+	if r.Chance(1, 5) {
+		p.op("pipe set own %s %d -", g.tok(), p.nextID()) // superseded before the refresh returns
+	}
+	first := p.id + 1
+	p.id += 4
+	p.op("pipe drain %d", first)
+	p.getAll(g, netip.Prefix{})
+	p.getAll(twin, netip.Prefix{})
+	p.op("pipe drain %d", p.nextID())
+	p.op("pipe dump")
+}
+
+// admitCase: answers enter the cache the way production admits them — a miss
+// reaches an upstream whose response carries an ECS SCOPE, WriteMsg clamps and
+// keys it — then clients inside and just outside the admitted audience ask.
+func (p *pipeGen) admitCase() {
+	r := p.r
+	p.ecs = !r.Chance(1, 8)
+	cfgs := [][4]int{{24, 56, 24, 56}, {24, 56, 24, 48}, {32, 128, 24, 48}, {32, 128, 32, 128}, {24, 56, 16, 32},
+		{24, 56, 32, 64}, {32, 64, 20, 40}, {32, 128, 8, 16}, {24, 48, 24, 24}, {16, 56, 16, 56}}
+	cf := vlib.Pick(r, cfgs)
+	p.op("pipe new %s %d,%d,%d,%d,0", map[bool]string{true: "on", false: "off"}[p.ecs], cf[0], cf[1], cf[2], cf[3])
+	v6 := r.Chance(1, 2)
+	fwd, floor, full := cf[0], cf[2], 32
+	if v6 {
+		fwd, floor, full = cf[1], cf[3], 128
+	}
+	g := genGid(r)
+	g.scope = netip.Prefix{}
+	q := func(x gid) string { return fmt.Sprintf("%s,%d,%d,%s", nameTok(x.ls), x.qtype, x.class, vlib.B(x.cd)) }
+	a := genPrefix(r, v6)
+	a = withBits(a, vlib.Pick(r, []int{fwd, fwd, fwd + 8, floor, floor + 1, floor - 1, full, 1 + r.Intn(full)}))
+	if a.Bits() == 0 {
+		a = withBits(a, fwd)
+	}
+	src := min(a.Bits(), fwd)
+	sb := vlib.Pick(r, []int{src, src, floor, floor + 1, floor - 1, floor + 8, src + 8, src - 1, full, 1, 0, -1, 1 + r.Intn(full)})
+	if sb > full {
+		sb = full
+	}
+	sbTok := fmt.Sprint(sb)
+	if sb < 0 {
+		sbTok = "-"
+	}
+	route := func() string { return vlib.Pick(r, []string{"msg", "wire"}) }
+	p.op("pipe ask %s %s %s %d %s", route(), q(g), fmtScope(a), p.nextID(), sbTok)
+	// the audience the answer may have: the asking client's network of min(SCOPE, SOURCE, floor) bits
+	allowed := min(max(sb, 0), src, floor)
+	others := []netip.Prefix{a, withBits(a, full)}
+	// just outside: one bit inside the allowed prefix differs (last bit, a bit past the OTHER family's floor, a random one)
+	for _, bit := range []int{allowed - 1, cf[2], cf[2] - 1, cf[3] - 1, 24, 23, src - 1, floor - 1, r.Intn(full)} {
+		if bit >= 0 && bit < full {
+			others = append(others, withBits(flipBit(a, bit), vlib.Pick(r, []int{a.Bits(), full, fwd})))
+		}
+	}
+	// inside: host bits randomised
+	in := a
+	for i := max(allowed, 1); i < full; i++ {
+		if r.Bool() {
+			in = flipBit(in, i)
+		}
+	}
+	others = append(others, withBits(in, full), withBits(in, max(allowed, 1)), netip.Prefix{})
+	m, _ := mutate(r, gid{scope: a}, []string{"scope-family"})
+	others = append(others, m.scope)
+	for _, c := range others {
+		if c.IsValid() && c.Bits() == 0 {
+			continue
+		}
+		p.op("pipe get %s %s %s", route(), q(g), fmtScope(c))
+	}
+	twin := g
+	twin.cd = !g.cd
+	p.op("pipe get msg %s %s", q(twin), fmtScope(a))
+	// a second audience asks for itself and is answered for itself
+	b := vlib.Pick(r, others[2:])
+	if b.IsValid() {
+		if sb > b.Addr().BitLen() && !r.Chance(1, 10) {
+			sbTok = fmt.Sprint(b.Addr().BitLen())
+		}
+		p.op("pipe ask %s %s %s %d %s", route(), q(g), fmtScope(b), p.nextID(), sbTok)
+		p.op("pipe get msg %s %s", q(g), fmtScope(a))
+		p.op("pipe get msg %s %s", q(g), fmtScope(b))
+	}
+	p.op("pipe ask %s %s - %d -", route(), q(twin), p.nextID())
+	p.op("pipe get wire %s -", q(twin))
+	p.op("pipe dump")
+}
+
 // purgeCase: shared + scoped variants, case mixes, a squatter under the purged
 // key, and Unicode look-alike names in the scoped sweep.
 func (p *pipeGen) purgeCase() {
@@ -973,7 +1115,11 @@ func gen(r *vlib.R, n int, tier string, emit func(string)) {
 	p := &pipeGen{r: r, emit: emit}
 	for n > 0 {
 		p.n = 0
-		switch k := r.Intn(26); {
+		switch k := r.Intn(32); {
+		case k >= 26 && k < 29:
+			p.prefetchCase()
+		case k >= 29:
+			p.admitCase()
 		case k < 3:
 			n -= genKeyOps(r, emit, &sweep, tier)
 		case k < 5:
